@@ -51,6 +51,8 @@ func main() {
 		corr(args)
 	case "loop":
 		loopMode(args)
+	case "forest":
+		forestMode(args)
 	case "attrs":
 		attrsMode(args)
 	case "url":
